@@ -786,10 +786,13 @@ def cache_owner(ctx, site="grain boundaries", route="prec", read="factors"):
         ctx.prove("owner-level gamma change: Gcrit = spherical barrier * volumeFactor/(4 pi/3)", ctx.eq(G, g2 * want[1] * R * R))
 
 
-def sites_compete(ctx, site="grain boundaries", nph=2, p=0, q=1, nb=2):
+def sites_compete(ctx, site="grain boundaries", nph=2, p=0, q=1, nb=2, nbs=None):
     """nph phases all nucleating on the same site type, each set by name (so each owns its description instance, as
     setNucleationSite / setNucleationType create them): more precipitates of phase q -- another phase or p itself --
-    strictly lower the sites available to phase p while any are left; never negative"""
+    strictly lower the sites available to phase p while any are left; never negative.  nbs: number of size classes per
+    phase (the grids of the phases are independent: per-phase setPBMParameters, adaptive extension of one phase only);
+    an internal error (shape mismatch) on such grids is reported as no_exception:<Type>"""
+    nbs = list(nbs) if nbs is not None else [nb] * nph
     m = PrecipitateModel(phases=["P%d" % i for i in range(nph)], elements=["A"])
     m.setVolumeAlpha(1e-5, "VM", 4)
     m.matrixParameters.nucleationSites.setNucleationDensity(grainSize=pos(ctx, "grain", (0.5, 2.0)), aspectRatio=pos(ctx, "grainAR", (1.0, 3.0)),
@@ -804,18 +807,18 @@ def sites_compete(ctx, site="grain boundaries", nph=2, p=0, q=1, nb=2):
         m.setInterfacialEnergy(g, phase=ph)
         m.setNucleationSite(site, phase=ph)
         m.precipitateParameters[i].nucleation.gbEnergy = 2 * k * g
-        m.PBM[i] = mk_pbm(ctx, nb, "g%d" % i)
+        m.PBM[i] = mk_pbm(ctx, nbs[i], "g%d" % i)
     ctx.prove("each phase owns its description instance",
               len({id(pp.nucleation.description) for pp in m.precipitateParameters}) == nph)
     # sampling scale of the populations (validation runs only): comparable to the site count of the site type, so that
     # the decrease is not absorbed by floating-point rounding (grain size is in micrometres: corners ~1e18, edges ~1e22 sites)
     sc_ = {"grain corners": 1e16, "grain edges": 1e8}.get(site, 1.0)
-    x = [ctx.reals("n%d" % i, nb, (0.0, 1e-3 * sc_)) for i in range(nph)]
+    x = [ctx.reals("n%d" % i, nbs[i], (0.0, 1e-3 * sc_)) for i in range(nph)]
     for i in range(nph):
-        for j in range(nb):
+        for j in range(nbs[i]):
             ctx.assume(x[i][j] >= 0)
-    more = ctx.reals("more", nb, (1e-4 * sc_, 2e-3 * sc_))
-    for j in range(nb):
+    more = ctx.reals("more", nbs[q], (1e-4 * sc_, 2e-3 * sc_))
+    for j in range(nbs[q]):
         ctx.assume(more[j] >= 0)
     ctx.assume(more[0] > 0, "at least one size class of phase q gains precipitates")
     y = [x[i] + more if i == q else x[i] for i in range(nph)]
@@ -1324,8 +1327,10 @@ HARNESSES = [
     Harness("C14.sites_compete", sites_compete, functions=[PrecipitateModel._calcNucleationSites, PrecipitateBase.setNucleationSite, NucleationBarrierParameters.setNucleationType],
             assumptions=["populations >= 0 on a grid with positive radii, at least one class of phase q gains precipitates; grain size, aspect ratio, dislocation density > 0, bulkN0 >= 0"],
             bounds={"phases": "nph (2 or 3), all on the same site type, each with its own description instance", "classes": "nb"},
-            params={"quick": [{"site": s, "nph": 2, "p": 0, "q": 1} for s in SITES] + [{"site": "grain boundaries", "nph": 3, "p": 1, "q": 2}, {"site": "bulk", "nph": 2, "p": 1, "q": 1}],
-                    "thorough": [{"site": s, "nph": 3, "p": p, "q": q, "nb": 3} for s in SITES for (p, q) in ((0, 2), (2, 0), (1, 1))]}),
+            params={"quick": [{"site": s, "nph": 2, "p": 0, "q": 1} for s in SITES] + [{"site": "grain boundaries", "nph": 3, "p": 1, "q": 2}, {"site": "bulk", "nph": 2, "p": 1, "q": 1}] +
+                             [{"site": s, "nph": 2, "p": pp_, "q": 1 - pp_, "nbs": [2, 3]} for s, pp_ in zip(SITES, (0, 1, 0, 1, 0))] + [{"site": "bulk", "nph": 2, "p": 1, "q": 0, "nbs": [2, 3]}],
+                    "thorough": [{"site": s, "nph": 3, "p": p, "q": q, "nb": 3} for s in SITES for (p, q) in ((0, 2), (2, 0), (1, 1))] +
+                                [{"site": s, "nph": 3, "p": p, "q": q, "nbs": [3, 2, 4]} for s in SITES for (p, q) in ((0, 1), (2, 0))]}),
     Harness("C14.model_zero", model_zero, functions=[PrecipitateBase._calcNucleationRate, NR.volumetricDrivingForce] + _FR, stubs=_ST + ["_calcNucleationSites of the model: symbolic value >= 0 (decided in C14.sites)"],
             assumptions=_AR + ["the working slice holds an arbitrary earlier evaluation (rates, radii >= 0)"],
             bounds={"phases": "1 (symbolic material constants) or 2 (fixed material constants)", "recorded steps": "n_hist"},
